@@ -8,6 +8,15 @@
 //      -> @@ {"res": ["ok" | "audit" | "forbidden" | "err:..."], "kinds": [type_name of the authorizer]}
 //   {"admin": [i32, ...]}
 //      -> @@ {"elevated": [bool, ...]}     runAsElevated of Claims::from_audit_entry(is_admin = x)
+//
+// SERVICE MODE (environment variable C03_SERVICE = JSON {"scratch": dir, "proxyPort": n | null,
+//   "callers": [{"uid": n, "is_admin": n}], "requests": [base64 of raw request bytes]}), no stdin:
+//   writes proxy-agent.json beside the executable (with an extra "proxyPort" member when given: today's
+//   Config ignores it), runs the REAL service::start_service(SharedState::start_all()) -- so the listener
+//   is bound by the agent's own start-up code on whatever port that code chooses --, reads the LISTEN
+//   sockets of the (private) network namespace from /proc/net/tcp, and for every listening port L sends
+//   each request on a fresh connection whose H1 audit record names 127.0.0.1:L as original destination.
+//      -> @@ {"listen": [L..], "results": [{"port": L, "uid", "is_admin", "statuses": [..]}]}
 use gpa::key_keeper::key::AuthorizationItem;
 use gpa::proxy::authorization_rules::ComputedAuthorizationItem;
 use gpa::proxy::proxy_authorizer::{self, AuthorizeResult};
@@ -111,6 +120,10 @@ fn handle(rt: &tokio::runtime::Runtime, line: &str) -> Value {
                 Ok(AuthorizeResult::Ok) => "ok",
                 Ok(AuthorizeResult::OkWithAudit) => "audit",
                 Ok(AuthorizeResult::Forbidden) => "forbidden",
+                // a result this driver does not know (a variant added later): reported as such; whether
+                // such a request is relayed is judged end to end, not here
+                #[allow(unreachable_patterns)]
+                Ok(_) => "other",
                 Err(_) => "panic",
             }));
         }
@@ -118,7 +131,139 @@ fn handle(rt: &tokio::runtime::Runtime, line: &str) -> Value {
     json!({"res": res, "kinds": kinds})
 }
 
+fn listen_ports() -> Vec<u16> {
+    // /proc/net/tcp of this network namespace: "sl local_address rem_address st ..."; st 0A = LISTEN
+    let mut v = Vec::new();
+    if let Ok(t) = std::fs::read_to_string("/proc/net/tcp") {
+        for l in t.lines().skip(1) {
+            let f: Vec<&str> = l.split_whitespace().collect();
+            if f.len() > 3 && f[3] == "0A" {
+                if let Some(p) = f[1].rsplit(':').next() {
+                    if let Ok(port) = u16::from_str_radix(p, 16) {
+                        v.push(port);
+                    }
+                }
+            }
+        }
+    }
+    v.sort();
+    v.dedup();
+    v
+}
+
+fn service_mode(spec: &str) {
+    use base64_lite::decode;
+    let v: Value = serde_json::from_str(spec).expect("C03_SERVICE json");
+    let scratch = PathBuf::from(v["scratch"].as_str().expect("scratch"));
+    for d in ["logs", "events", "keys"] {
+        std::fs::create_dir_all(scratch.join(d)).expect("scratch dirs");
+    }
+    let exe_dir = std::env::current_exe().unwrap().parent().unwrap().to_path_buf();
+    let mut cfg = json!({
+        "logFolder": scratch.join("logs"), "eventFolder": scratch.join("events"), "latchKeyFolder": scratch.join("keys"),
+        "monitorIntervalInSeconds": 60, "pollKeyStatusIntervalInSeconds": 15, "hostGAPluginSupport": 1,
+        "ebpfProgramName": "ebpf_cgroup.o", "cgroupRoot": "/sys/fs/cgroup", "fileLogLevel": "Trace"
+    });
+    if let Some(p) = v["proxyPort"].as_u64() {
+        cfg["proxyPort"] = json!(p);
+    }
+    std::fs::write(exe_dir.join("proxy-agent.json"), serde_json::to_vec_pretty(&cfg).unwrap()).expect("write proxy-agent.json");
+    let requests: Vec<Vec<u8>> = v["requests"].as_array().map(|a| a.iter().map(|x| decode(x.as_str().unwrap_or(""))).collect()).unwrap_or_default();
+    let callers: Vec<(u64, i32)> = v["callers"].as_array().map(|a| a.iter().map(|c| (c["uid"].as_u64().unwrap_or(0), c["is_admin"].as_i64().unwrap_or(0) as i32)).collect()).unwrap_or_default();
+
+    let rt = tokio::runtime::Builder::new_multi_thread().worker_threads(2).enable_all().build().unwrap();
+    let out = rt.block_on(async move {
+        use tokio::io::{AsyncReadExt, AsyncWriteExt};
+        gpa::redirector::verif_hooks::enable();
+        let shared_state = gpa::shared_state::SharedState::start_all();
+        gpa::service::start_service(shared_state.clone()).await;
+        // wait for the agent's listener(s)
+        let mut ports = Vec::new();
+        for _ in 0..100 {
+            ports = listen_ports();
+            if !ports.is_empty() {
+                break;
+            }
+            tokio::time::sleep(std::time::Duration::from_millis(50)).await;
+        }
+        tokio::time::sleep(std::time::Duration::from_millis(200)).await;
+        let ports2 = listen_ports();
+        if !ports2.is_empty() {
+            ports = ports2;
+        }
+        let mut results = Vec::new();
+        for &l in &ports {
+            for &(uid, is_admin) in &callers {
+                let mut statuses = Vec::new();
+                for raw in &requests {
+                    let st: Value = async {
+                        let sock = match tokio::net::TcpSocket::new_v4() { Ok(s) => s, Err(e) => return json!(format!("socket: {}", e)) };
+                        if let Err(e) = sock.bind("127.0.0.1:0".parse().unwrap()) { return json!(format!("bind: {}", e)); }
+                        let lp = sock.local_addr().map(|a| a.port()).unwrap_or(0);
+                        gpa::redirector::verif_hooks::insert(lp, (uid, std::process::id(), is_admin,
+                            u32::from_le_bytes([127, 0, 0, 1]), l.to_be()));
+                        let mut stream = match sock.connect(format!("127.0.0.1:{}", l).parse().unwrap()).await {
+                            Ok(s) => s, Err(e) => return json!(format!("connect: {}", e)) };
+                        if let Err(e) = stream.write_all(raw).await { return json!(format!("write: {}", e)); }
+                        let mut buf = Vec::new();
+                        let mut chunk = [0u8; 4096];
+                        let deadline = tokio::time::Instant::now() + std::time::Duration::from_secs(5);
+                        loop {
+                            if buf.windows(4).any(|w| w == b"\r\n\r\n") { break; }
+                            match tokio::time::timeout_at(deadline, stream.read(&mut chunk)).await {
+                                Ok(Ok(0)) | Err(_) | Ok(Err(_)) => break,
+                                Ok(Ok(n)) => buf.extend_from_slice(&chunk[..n]),
+                            }
+                        }
+                        let head = String::from_utf8_lossy(&buf).to_string();
+                        match head.split_whitespace().nth(1).and_then(|x| x.parse::<u16>().ok()) {
+                            Some(code) => json!(code),
+                            None => json!(format!("no status line: {:?}", head.chars().take(60).collect::<String>())),
+                        }
+                    }.await;
+                    statuses.push(st);
+                }
+                results.push(json!({"port": l, "uid": uid, "is_admin": is_admin, "statuses": statuses}));
+            }
+        }
+        json!({"listen": ports, "results": results})
+    });
+    let text = format!("@@ {}\n", out);
+    io::stdout().write_all(text.as_bytes()).unwrap();
+    io::stdout().flush().unwrap();
+    std::process::exit(0);
+}
+
+mod base64_lite {
+    pub fn decode(s: &str) -> Vec<u8> {
+        let mut out = Vec::new();
+        let (mut acc, mut bits) = (0u32, 0u32);
+        for c in s.bytes() {
+            let v = match c {
+                b'A'..=b'Z' => c - b'A',
+                b'a'..=b'z' => c - b'a' + 26,
+                b'0'..=b'9' => c - b'0' + 52,
+                b'+' => 62,
+                b'/' => 63,
+                _ => continue,
+            } as u32;
+            acc = (acc << 6) | v;
+            bits += 6;
+            if bits >= 8 {
+                bits -= 8;
+                out.push((acc >> bits) as u8);
+                acc &= (1 << bits) - 1;
+            }
+        }
+        out
+    }
+}
+
 pub fn main() {
+    if let Ok(spec) = std::env::var("C03_SERVICE") {
+        service_mode(&spec);
+        return;
+    }
     std::panic::set_hook(Box::new(|_| {}));
     let rt = tokio::runtime::Builder::new_current_thread()
         .enable_all()
